@@ -65,7 +65,8 @@ def run_one(m, suite=False, tier="quick", seed="0"):
                                text=True, env=dict(os.environ, PYTHONDONTWRITEBYTECODE="1"))
             res["suite_passes"] = p.returncode == 0
             res["suite_tail"] = p.stdout.strip().splitlines()[-1:] if p.stdout else []
-        env = dict(os.environ, VERIF_REPO=tmp, VERIF_SEED=str(seed))
+        env = dict(os.environ, VERIF_REPO=tmp, VERIF_SEED=str(seed),
+                   VERIF_REPLAY_DIR=os.path.join("replays", "mut-" + m["id"]))
         props = m["prop"] if isinstance(m["prop"], list) else [m["prop"]]
         res["checks"] = {}
         for pid in props:
